@@ -16,6 +16,9 @@ type Op struct {
 	Body   []byte
 	Hdr    map[string]string
 	Events []string
+
+	fromQueue bool
+	extraPoll bool
 }
 
 // InternalSpec is an internal extension living inside the runtime process.
@@ -47,6 +50,8 @@ type Behav struct {
 	RespErr bool
 	// Stalls: before the n-th call (0-based count of calls made so far) wait this long.
 	Stalls map[int]time.Duration
+	// Around, when set, returns extra ops to run before and after the answer to an invocation (healthy loop).
+	Around func(inv *Invocation) (pre, post []Op)
 	// PerInv gives the healthy runtime loop a per-invocation plan (nil = answer with RespBody).
 	PerInv func(inv *Invocation) *InvBehav
 	// DieAfterInv: the process exits unexpectedly (status 1) once invocation number k has been answered.
@@ -87,6 +92,8 @@ type actorState struct {
 	exitDue    bool
 	stalled    map[int]bool
 	extraPolls map[string]int
+	queue      []Op
+	planned    map[string]bool
 }
 
 // procState is engine bookkeeping per process.
@@ -214,15 +221,52 @@ func (e *Engine) healthyOp(s *actorState) (Op, bool) {
 			// a real runtime treats a refused submission as fatal (aws-lambda-go, the Python RIC: log and exit non-zero)
 			return Op{Kind: "exit", N: 1}, true
 		}
+		if len(s.queue) > 0 {
+			op := s.queue[0]
+			op.fromQueue = true
+			return op, true // popped when executed (doOp)
+		}
+		if a.CurReqID != "" && s.b.Around != nil && a.CurInv != nil && !s.planned[a.CurReqID] {
+			if s.planned == nil {
+				s.planned = map[string]bool{}
+			}
+			s.planned[a.CurReqID] = true
+			pre, post := s.b.Around(a.CurInv)
+			answer, _ := e.answerOp(s)
+			s.queue = append(append(append([]Op{}, pre...), answer), post...)
+			op := s.queue[0]
+			op.fromQueue = true
+			return op, true
+		}
 		if a.CurReqID != "" {
+			return e.answerOp(s)
+		}
+		return Op{Kind: "next"}, true
+	}
+	if a.st == "refused" && !a.Internal {
+		return Op{Kind: "exit", N: 1}, true
+	}
+	if !a.Registered {
+		if a.st == "regfailed" {
+			return Op{}, false
+		}
+		return Op{Kind: "register"}, true
+	}
+	if a.st == "initerror" || a.st == "exiterror" {
+		return Op{}, false
+	}
+	return Op{Kind: "extnext"}, true
+}
+
+// answerOp is the legitimate answer of the healthy runtime loop to its current invocation.
+func (e *Engine) answerOp(s *actorState) (Op, bool) {
+	a := s.a
+	{
+		{
 			if s.b.PerInv != nil && a.CurInv != nil {
 				if pb := s.b.PerInv(a.CurInv); pb != nil {
 					if s.extraPolls[a.CurReqID] < pb.ExtraPolls {
-						if s.extraPolls == nil {
-							s.extraPolls = map[string]int{}
-						}
-						s.extraPolls[a.CurReqID]++
-						return Op{Kind: "next"}, true
+						return Op{Kind: "next", extraPoll: true}, true // counted when executed
 					}
 					switch pb.Mode {
 					case "error":
@@ -249,18 +293,7 @@ func (e *Engine) healthyOp(s *actorState) (Op, bool) {
 			}
 			return Op{Kind: "response"}, true
 		}
-		return Op{Kind: "next"}, true
 	}
-	if !a.Registered {
-		if a.st == "regfailed" {
-			return Op{}, false
-		}
-		return Op{Kind: "register"}, true
-	}
-	if a.st == "initerror" || a.st == "exiterror" {
-		return Op{}, false
-	}
-	return Op{Kind: "extnext"}, true
 }
 
 func (e *Engine) nextOp(s *actorState) (Op, bool) {
@@ -351,6 +384,14 @@ func (e *Engine) doOp(s *actorState, op Op, scripted bool) {
 	a := s.a
 	if scripted {
 		s.pc++
+	} else if op.fromQueue && len(s.queue) > 0 {
+		s.queue = s.queue[1:]
+	}
+	if op.extraPoll {
+		if s.extraPolls == nil {
+			s.extraPolls = map[string]int{}
+		}
+		s.extraPolls[a.CurReqID]++
 	}
 	switch op.Kind {
 	case "next":
@@ -363,7 +404,25 @@ func (e *Engine) doOp(s *actorState, op Op, scripted bool) {
 			e.armEvent(a.P)
 		}
 	case "response":
-		a.Response(e.resolveID(a, op.Arg), e.respBody(s, op), op.Hdr)
+		id := e.resolveID(a, op.Arg)
+		exp := id != "" && id == a.CurReqID
+		c := a.Response(id, e.respBody(s, op), op.Hdr)
+		c.ExpectAccept, c.Judged = exp, true
+	case "response-die", "error-die":
+		id := e.resolveID(a, op.Arg)
+		if op.Kind == "error-die" {
+			a.Error(id, e.respBody(s, op), "Function.Zombie", nil)
+		} else {
+			a.Response(id, e.respBody(s, op), op.Hdr)
+		}
+		if a.P.Alive {
+			if a.Busy() {
+				e.r.Fault("zombie-request")
+			}
+			e.r.Fault("process-exit")
+			e.w.Sup.Die(a.P, op.N)
+			e.armEvent(a.P)
+		}
 	case "error":
 		body := op.Body
 		if body == nil {
@@ -376,7 +435,10 @@ func (e *Engine) doOp(s *actorState, op Op, scripted bool) {
 				hdr[k] = v
 			}
 		}
-		a.Error(e.resolveID(a, op.Arg), body, et, hdr)
+		id := e.resolveID(a, op.Arg)
+		exp := id != "" && id == a.CurReqID
+		c := a.Error(id, body, et, hdr)
+		c.ExpectAccept, c.Judged = exp, true
 	case "initerror":
 		body := op.Body
 		if body == nil {
